@@ -42,18 +42,50 @@ type world struct {
 	db      youdb.Database
 }
 
+// nKeys fixture identities: 1 chamber validator (signs the envelopes by default), 2 operator of the staking fixture,
+// 3 validator of the staking fixture, 4..7 the other senders below.
+const nKeys = 7
+
+// sender is one kind of envelope signer: the SENDER dimension of the consensus entry point.
+type sender struct {
+	name       string
+	key        int
+	registered bool
+	role       params.ValidatorRole
+	status     uint8
+	stake      int64
+}
+
+var senders = []sender{
+	{"chamber", 1, true, params.RoleChancellor, params.ValidatorOnline, 10},
+	{"house", 4, true, params.RoleHouse, params.ValidatorOnline, 10},
+	{"offline", 5, true, params.RoleChancellor, params.ValidatorOffline, 10},
+	{"zerostake", 6, true, params.RoleSenator, params.ValidatorOnline, 0},
+	{"stranger", 7, false, 0, 0, 0}, // a key that is not a validator at all
+}
+
 const (
 	ctxRound = 100
 	ctxIndex = uint32(1)
 )
 
 func newWorld() *world {
-	w := &world{keys: fixture.Keys("rlp", 4), db: youdb.NewMemDatabase()}
+	w := &world{keys: fixture.Keys("rlp", nKeys), db: youdb.NewMemDatabase()}
 	w.yp = params.Versions[params.YouCurrentVersion]
 	w.yp.EnableBls = false // votes carry ECDSA signatures: the whole vote path is reachable with fixture keys only
+	// the look-back validator query, answered as Server.GetLookBackValidator answers it: nothing for round nil / 0,
+	// the registered record for a registered key (chamber, house, offline, zero stake), nothing for any other key
 	getVal := func(round *big.Int, addr common.Address, lbType params.LookBackType) (*state.Validator, bool) {
-		k := w.keys[1]
-		return state.NewValidator("v", addr, addr, params.RoleChancellor, k.PubComp, k.BlsPkB, big.NewInt(100), big.NewInt(10), 1, 0, 0, params.ValidatorOnline), false
+		if round == nil || round.Uint64() == 0 {
+			return nil, false
+		}
+		for _, sd := range senders {
+			k := w.keys[sd.key]
+			if k.Addr == addr && sd.registered {
+				return state.NewValidator("v", addr, addr, sd.role, k.PubComp, k.BlsPkB, big.NewInt(100), big.NewInt(sd.stake), 1, 0, 0, sd.status), false
+			}
+		}
+		return nil, false
 	}
 	w.handler = ucon.VerifRlpNewHandler(w.keys[1].Priv, w.keys[1].BlsSk, getVal, &w.yp)
 	// staking: a state with one validator operated by key 2
@@ -104,9 +136,11 @@ func (w *world) handleMsg(pt string, data []byte) entryRes {
 }
 
 // wrapped builds a properly signed consensus message around a (possibly hostile) payload, as a validator would.
-func (w *world) wrapped(codeName string, payload []byte) []byte {
+func (w *world) wrapped(codeName string, payload []byte) []byte { return w.wrappedBy(1, codeName, payload) }
+
+func (w *world) wrappedBy(key int, codeName string, payload []byte) []byte {
 	code := ucon.StringToMessageCode(codeName)
-	sig, err := ucon.Sign(w.keys[1].Priv, append(append([]byte{}, payload...), byte(code)))
+	sig, err := ucon.Sign(w.keys[key].Priv, append(append([]byte{}, payload...), byte(code)))
 	if err != nil {
 		panic(err)
 	}
@@ -161,6 +195,10 @@ func (w *world) entries(ty string, b []byte, acc bool) []entryRes {
 		if acc {
 			oj := append(append([]byte{}, outer...), junk...)
 			out = append(out, withJunk(w.handleMsg(pt+"+junk", oj), "UconMessage", oj))
+			// the sender dimension: the same payload in a correctly signed envelope of every other kind of sender
+			for _, sd := range senders[1:] {
+				out = append(out, w.handleMsg(pt+"@"+sd.name, w.wrappedBy(sd.key, code, b)))
+			}
 		}
 	}
 	stk := func(pt string, a staking.ActionType) {
